@@ -78,6 +78,96 @@ def eqvec(x, y):
     return [i for i in range(64) if x[i] != y[i]]
 
 
+def lin_form(e):
+    """e as a linear form modulo 2^64 over opaque terms: ({term: coefficient}, constant); !x == -x - 1"""
+    M_ = 1 << 64
+    if e[0] == "int":
+        return {}, e[1] % M_
+    if e[0] == "cast":
+        return lin_form(e[2])
+    if (e[0] == "bin" and e[1] in ("Add", "Sub")) or (e[0] == "call" and e[1].rsplit("::", 1)[-1] in ("wrapping_add", "wrapping_sub") and len(e[2]) == 2):
+        if e[0] == "bin":
+            op_, x_, y_ = e[1], e[2], e[3]
+        else:
+            op_, x_, y_ = ("Add" if e[1].endswith("wrapping_add") else "Sub"), e[2][0], e[2][1]
+        (ta, ca), (tb, cb) = lin_form(x_), lin_form(y_)
+        sg = 1 if op_ == "Add" else -1
+        out = dict(ta)
+        for k_, v_ in tb.items():
+            out[k_] = (out.get(k_, 0) + sg * v_) % M_
+        return {k_: v_ for k_, v_ in out.items() if v_}, (ca + sg * cb) % M_
+    if e[0] == "un" and e[1] == "Not":
+        ta, ca = lin_form(e[2])
+        return {k_: (-v_) % M_ for k_, v_ in ta.items()}, (-ca - 1) % M_
+    return {e: 1}, 0
+
+
+def is_carry_rippler(newsub, sub0, set0):
+    """newsub == (sub0 - set0) & set0 in any arithmetic spelling of the subtraction"""
+    wsub = lambda e: lin_form(e) == ({sub0: 1, set0: (1 << 64) - 1}, 0)
+    return newsub[0] == "bin" and newsub[1] == "BitAnd" and ((wsub(newsub[2]) and newsub[3] == set0) or (wsub(newsub[3]) and newsub[2] == set0))
+
+
+def subset_iteration_option_state(ctx, f, f_set, f_opt):
+    """BitBoardSubsetIter { set, subset: Option<BitBoard> }: None = finished.  Same obligations as for the
+    (subset, finished) representation: a finished iterator answers None and stays as it is; a step yields the held
+    subset, the next one is the carry-rippler successor, and the iterator finishes exactly when that is empty"""
+    b, ps = paths(f, "<" + P + "BitBoardSubsetIter as core::iter::traits::iterator::Iterator>::next")
+    opt = ("field", ("obj", "self"), f_opt)
+    cur = ("field", ("downcast", opt, "Some"), "0")
+    sub0 = ("field", cur, "0")
+    set0 = ("field", ("field", ("obj", "self"), f_set), "0")
+    from .c08 import discr_poss
+    seen = set()
+    wrapped = set()
+    for p in ps:
+        poss = discr_poss(p.conds, opt)
+        if poss == {0}:
+            seen.add("done")
+            ctx.check(p.ret[0] == "agg" and p.ret[2] == "None" and p.store.get(("P", "self")) == ("obj", "self"), "subsets:finished-none",
+                      "a finished subset iterator does not return None untouched", loc(b))
+        elif poss == {1}:
+            seen.add("step")
+            st = p.store.get(("P", "self"))
+            nv = sym.Ops(f).field(st, f_opt)
+            r = p.ret
+            ctx.check(r[0] == "agg" and r[2] == "Some" and dict(r[4])["0"] == cur, "subsets:yields-current",
+                      "the step does not yield the subset held before stepping", loc(b))
+            # what the path decided about the successor being empty
+            empt = None
+            succ = None
+            for c in p.conds:
+                e = c[0]
+                x = None
+                if e[0] == "bin" and e[1] in ("Eq", "Ne") and ("int", 0, "u64") in (e[2], e[3]) and isinstance(c[1], int):
+                    x = e[3] if e[2] == ("int", 0, "u64") else e[2]
+                    val = (e[1] == "Eq") == bool(c[1])
+                elif e[0] == "isempty" and isinstance(c[1], int):
+                    x = e[1][1] if e[1][0] == "bb" else None
+                    val = bool(c[1])
+                if x is not None and is_carry_rippler(x, sub0, set0):
+                    succ, empt = x, val
+            ok1 = succ is not None
+            ctx.check(ok1, "subsets:carry-rippler", "the subset step does not compute the carry-rippler successor (subset - set) & set and test it for emptiness", loc(b),
+                      sample={"step": sym.show(succ)[:120] if succ else None})
+            if not ok1:
+                continue
+            if nv[0] == "agg" and nv[2] == "None":
+                okf = empt is True
+            elif nv[0] == "agg" and nv[2] == "Some":
+                held = dict(nv[4]).get("0")
+                held = held[1] if held is not None and held[0] == "bb" else held
+                okf = empt is False and held == succ
+            else:
+                okf = False
+            wrapped.add(empt)
+            ctx.check(okf, "subsets:finished-iff-wrapped", "the iterator does not finish exactly when the next subset is empty (wrapped around), holding that subset otherwise: %s"
+                      % sym.show(nv)[:160], loc(b))
+        else:
+            ctx.fail("subsets:finished-undecided", "subset next() does not first test whether it is finished", loc(b))
+    ctx.check(seen == {"done", "step"} and wrapped == {True, False}, "subsets:cases", "subset next() lacks a finished, a wrapping or a continuing path", loc(b))
+
+
 def run(ctx):
     ctx.level = "proof"
     ctx.explanation = __doc__
@@ -373,6 +463,19 @@ def run(ctx):
                 f_sub = n_
             elif v_ == sym.FALSE:
                 f_fin = n_
+    # the same state kept as one Option: Some(next subset to yield) / None once wrapped around
+    f_opt = None
+    if r is not None and r[0] == "agg" and len(r[4]) == 2:
+        for n_, v_ in r[4]:
+            if v_[0] == "agg" and v_[2] == "Some" and dict(v_[4]).get("0") == ("bbconst", 0):
+                f_opt = n_
+    if f_set is not None and f_opt is not None:
+        subset_iteration_option_state(ctx, f, f_set, f_opt)
+        ctx.extra["exhaustive"] = True
+        ctx.assumptions += ["u64 primitives (&,|,^,!,<<,>>,swap_bytes,count_ones,trailing_zeros,wrapping_sub) have their documented meaning",
+                            "carry-rippler lemma (every subset once, increasing) is cited, not re-proved",
+                            "the lowest set bit is set: flipping it removes it (meaning of trailing_zeros)"]
+        return
     oki = r is not None and None not in (f_set, f_sub, f_fin) and len(r[4]) == 3
     ctx.check(oki, "subsets:start", "iter_subsets does not start at (set, empty subset, not finished): %s" % (sym.show(r)[:120] if r else None), loc(b))
     if not oki:
